@@ -698,18 +698,31 @@ theorem updateCredential_inv {E : Env} {now : Nat} {row : PageRow} {idxs : List 
   unfold updateCredential at h
   split at h
   · rename_i bits hb
-    simp only [Res.ok.injEq, Prod.mk.injEq] at h
-    obtain ⟨rfl, rfl⟩ := h
-    exact ⟨hb, rfl, rfl, rfl, rfl, rfl, rfl⟩
+    split at h
+    · cases h
+    · simp only [Res.ok.injEq, Prod.mk.injEq] at h
+      obtain ⟨rfl, rfl⟩ := h
+      exact ⟨hb, rfl, rfl, rfl, rfl, rfl, rfl⟩
   · cases h
   · cases h
 
-theorem updateCredential_ok (E : Env) (hE : EnvOK E) (now : Nat) (row : PageRow) (idxs : List Nat) (kid : String)
+/-- when `Sign` fails, nothing is built -/
+theorem updateCredential_sign_fails {E : Env} (hf : E.signFails = true) (now : Nat) (row : PageRow) (idxs : List Nat) (kid : String)
+    (vc : VC) (rec : CredRec) : updateCredential E now row idxs kid ≠ .ok (vc, rec) := by
+  intro h
+  unfold updateCredential at h
+  split at h
+  · simp [hf] at h
+  · cases h
+  · cases h
+
+theorem updateCredential_ok (E : Env) (hE : EnvOK E) (hs : E.signFails = false) (now : Nat) (row : PageRow) (idxs : List Nat) (kid : String)
     (hr : ∀ i, i ∈ idxs → i ≤ E.maxIndex) : ∃ vc rec, updateCredential E now row idxs kid = .ok (vc, rec) := by
   have hlen : (newBits E.lenBytes).length = E.lenBytes := by simp [newBits]
   obtain ⟨bs, h, _, _⟩ := setAll_spec idxs (newBits E.lenBytes) (by intro i hi; rw [hlen]; have := hr i hi; have := hE.idx; omega)
   unfold updateCredential
   rw [h]
+  simp only [hs]
   exact ⟨_, _, rfl⟩
 
 theorem updateCredential_signed {E : Env} {now : Nat} {row : PageRow} {idxs : List Nat} {kid : String} {vc : VC} {rec : CredRec}
